@@ -204,6 +204,9 @@ def singleline_string_literal(string: str) -> str:
 def multiline_string_literal(string: str) -> str:
     string = str(string)[3:-3]
     all_lines = string.splitlines()
+    if len(all_lines) > 0 and len(string.splitlines(keepends=True)[-1]) != len(all_lines[-1]):
+        # The literal ends with a line break: the last line of the literal (the one with the closing quotes) is empty.
+        all_lines.append("")
     lines: list[str] = []
     last_line = ""
 
